@@ -360,7 +360,9 @@ def run(ctx):
                                   {'case': c, 'family': fam, 'document': doc[:600].decode('utf8', 'replace'), 'error': err})
     shutil.rmtree(wd, ignore_errors=True)
     # (c) lxml vs soft vs Valid on the facet cases
-    d, recs = c05.collect(ctx, with_lxml=True, families=['xml', 'soap11', 'soap12'])
+    # (the repeated-member positions are C05's business; the quick tier keeps the four structural ones here)
+    d, recs = c05.collect(ctx, with_lxml=True, families=['xml', 'soap11', 'soap12'],
+                          positions=('arg', 'field', 'array', 'attr') if ctx.quick else None)
     fails = c05.judge(ctx, recs, schema=True)
     nf = 0
     for i, cl in sorted(fails.items()):
